@@ -41,6 +41,11 @@ type Gen struct {
 	taint         string // the finding this history has triggered (set by the runner)
 	pending       string
 	buildSteps    int // first steps after the prefix: build nested signal structures
+	// the open-finding stream: only histories with taintWant != "" may trigger a finding, only the
+	// one named here, and only after taintFrom random calls (the history ends at the trigger)
+	taintWant string
+	taintFrom int
+	calls     int
 }
 
 const nNames = 5
@@ -232,6 +237,12 @@ func (g *Gen) prefix() []Op {
 
 // nextOp draws the next operation
 func (g *Gen) nextOp(p *Pool) Op {
+	g.calls++
+	if g.taintWant != "" && g.calls >= g.taintFrom {
+		if o, ok := g.triggerOp(p); ok {
+			return o
+		}
+	}
 	total := 0
 	for _, t := range templates {
 		total += t.weight
@@ -268,18 +279,7 @@ func (g *Gen) nextOp(p *Pool) Op {
 				break
 			}
 			if tn := taintOf(p, o); tn != "" {
-				if (isReattach(tn) && !g.allowReattach) || (tn == "two-interfaces-of-a-node-receive" && !g.allowTwoIface) || tn == "removed-interface-used" {
-					continue
-				}
-				// one kind of finding per history, so that what breaks afterwards is attributed
-				// to the right one
-				if g.taint != "" && g.taint != tn {
-					continue
-				}
-				if g.taint == "" && !g.r.chance(30) {
-					continue
-				}
-				g.pending = tn
+				continue // findings are triggered by triggerOp only
 			}
 			if !fallible(o.Name) {
 				return o
@@ -375,3 +375,66 @@ func taintOf(p *Pool, o Op) string {
 }
 
 func isReattach(t string) bool { return len(t) >= 8 && t[:8] == "reattach" }
+
+// triggerOp: a call that falls under the open finding this history is meant to exhibit
+func (g *Gen) triggerOp(p *Pool) (Op, bool) {
+	for tries := 0; tries < 200; tries++ {
+		var o Op
+		switch g.taintWant {
+		case "reattach Network.AddBus":
+			o = op("NetAddBus", g.r.pick(p.of(KNet)), g.r.pick(p.of(KBus)))
+		case "reattach Bus.AddNodeInterface":
+			o = op("BusAddNodeInterface", g.r.pick(p.of(KBus)), g.r.pick(liveIfaces(p)))
+		case "reattach NodeInterface.AddSentMessage":
+			o = op("IfAddSent", g.r.pick(liveIfaces(p)), g.r.pick(p.of(KMsg)))
+		case "reattach SignalEnum.AddValue":
+			o = op("EnumAddValue", g.r.pick(p.of(KEnum)), g.r.pick(p.of(KEval)))
+		case "reattach Message.AppendSignal":
+			o = op("MsgAppendSignal", g.r.pick(p.of(KMsg)), g.r.pick(p.of(KSig)))
+		case "reattach Message.InsertSignal":
+			o = op("MsgInsertSignal", g.r.pick(p.of(KMsg)), g.r.pick(p.of(KSig)), int64(g.r.below(40)))
+		case "reattach MultiplexerSignal.InsertSignal":
+			muxes := sigsOfKind(p, acme.SignalKindMultiplexer)
+			mx := g.r.pick(muxes)
+			if mx == 0 {
+				return Op{}, false
+			}
+			o = op("MuxInsertSignal", mx, g.r.pick(p.of(KSig)), int64(g.r.below(9)), int64(g.r.below(p.mux(mx).GroupCount())))
+		case "two-interfaces-of-a-node-receive":
+			if g.r.chance(50) {
+				o = op("MsgAddReceiver", g.r.pick(p.of(KMsg)), g.r.pick(liveIfaces(p)))
+			} else {
+				o = op("IfAddReceived", g.r.pick(liveIfaces(p)), g.r.pick(p.of(KMsg)))
+			}
+		case "removed-interface-used":
+			var dead []int
+			for _, h := range p.of(KIface) {
+				if p.ents[h-1].Dead {
+					dead = append(dead, h)
+				}
+			}
+			if len(dead) == 0 {
+				// remove an interface first
+				for _, h := range p.of(KNode) {
+					if n := p.node(int64(h)); len(n.Interfaces()) >= 2 {
+						return op("NodeRemoveInterface", int64(h), int64(g.r.below(len(n.Interfaces())))), true
+					}
+				}
+				return Op{}, false
+			}
+			o = op("BusAddNodeInterface", g.r.pick(p.of(KBus)), g.r.pick(dead))
+		default:
+			return Op{}, false
+		}
+		if taintOf(p, o) == g.taintWant && len(expect(p, o).Refusals) == 0 {
+			return o, true
+		}
+	}
+	return Op{}, false
+}
+
+var taintKinds = []string{
+	"reattach Network.AddBus", "reattach Bus.AddNodeInterface", "reattach NodeInterface.AddSentMessage",
+	"reattach SignalEnum.AddValue", "reattach Message.AppendSignal", "reattach Message.InsertSignal",
+	"reattach MultiplexerSignal.InsertSignal", "two-interfaces-of-a-node-receive", "removed-interface-used",
+}
